@@ -423,13 +423,17 @@ def runDraws {β : Type} (one : M α β) : Nat → M α (List β)
 def hyperEvals {β : Type} (one : M α β) (sharp : Bool) (numDraws : Nat) : M α (List β) :=
   if sharp then runDraws one 1 else runDraws one numDraws
 
-/-- the N-draw branch of `hyper_param_likelihood` given the N single-draw log-likelihoods:
-    `log( (Σ_{exp l finite and > 0} exp l) / N )`, `none` = −inf -/
+/-- the N-draw branch of `hyper_param_likelihood` given the N single-draw log-likelihoods: draws
+    with a non-finite log-likelihood are dropped, the rest is combined as
+    `l_max + log( Σ exp(l − l_max) / N )` (shifted so that `exp` cannot under- or overflow);
+    `none` = −inf (no finite draw) -/
 def logMeanExp (fin : α → Bool) (n : α) (ls : List α) : Option α :=
-  let tot := ls.foldl (fun acc l =>
-    let e := Trans.exp l
-    if fin e && decide (0.0 < e) then acc + e else acc) 0.0
-  if tot ≤ 0.0 then none else some (Trans.log (tot / n))
+  match ls.filter fin with
+  | [] => none
+  | l0 :: t =>
+    let mx := t.foldl (fun m l => if m < l then l else m) l0
+    let tot := (l0 :: t).foldl (fun acc l => acc + Trans.exp (l - mx)) 0.0
+    some (mx + Trans.log (tot / n))
 
 end
 end HierArc.Lens
